@@ -351,7 +351,12 @@ impl<'c, T: Sut> Sim<'c, T> {
         for i in 0..self.pop.len() {
             let n = self.pop[i].model.len();
             // long models: full battery on a sample, cheap pass on the rest
+            // after a bulk push the model holds tens of thousands of handles: rotate through them
+            let stride = if n > 2048 { n / 256 } else { 1 };
             for mi in 0..n {
+                if stride > 1 && mi % stride != self.step % stride && mi + 8 < n {
+                    continue;
+                }
                 self.cx.full = saved_full && (n <= 24 || mi % 7 == (self.step % 7));
                 // out-of-bounds probes cost a caught panic each: probe a rotating sample
                 self.cx.oob = saved_oob && (n <= 3 || mi % 4 == (self.step % 4));
@@ -764,6 +769,9 @@ impl<'c, T: Sut> Sim<'c, T> {
             self.cx.hit(Probe::clear);
             if nonempty {
                 self.cx.hit(Probe::clear_nonempty);
+            }
+            if self.pop[i].model.len() >= 65536 {
+                self.cx.hit(Probe::clear_after_65536_items);
             }
             let inst = &mut self.pop[i];
             inst.model.clear();
@@ -1378,6 +1386,78 @@ impl<'c, T: Sut> Sim<'c, T> {
         Ok(())
     }
 
+    /// Push the same value `n` times into instance `t` and its lockstep peers. Only the returned
+    /// indices of the first, every 1024th and the last push are checked on the spot; all handles
+    /// enter the model and are re-read by the normal schedule.
+    fn op_bulk(&mut self, t: usize, v: &T::Val, n: usize) -> R<()> {
+        let ti = t % self.pop.len();
+        let peers = self.peers(ti);
+        if peers.iter().any(|i| !self.in_contract(&self.pop[*i], v)) || v.stored_len().map(|l| l > 64).unwrap_or(false) {
+            return Ok(());
+        }
+        let cmp_idx = self.pop[ti].group.map(|g| self.group(g).cmp_idx).unwrap_or(false);
+        let gp = self.pop[ti].group.map(|g| self.group(g).prop).unwrap_or(0);
+        let mut last_reprs: Vec<String> = Vec::new();
+        for &i in &peers {
+            let owner = self.pop[i].owner;
+            let r = {
+                let inst = &mut self.pop[i];
+                catch(|| {
+                    alloc::with_owner(owner, || {
+                        let mut hs = Vec::with_capacity(n);
+                        for _ in 0..n {
+                            hs.push(inst.sut.push(v, 0));
+                        }
+                        hs
+                    })
+                })
+            };
+            let hs = match r {
+                Ok(hs) => hs,
+                Err(p) => {
+                    let inst = &self.pop[i];
+                    let props = pbit(1) | self.origin_props(inst);
+                    let d = format!("instance #{} ({}): one of {n} consecutive pushes of {} panicked: {}", inst.uid, T::name(), v.render(), p.short());
+                    return Err(self.stop(props, "push-panicked", d));
+                }
+            };
+            self.cx.hit(Probe::bulk_push);
+            self.cx.hits(Probe::bulk_items, n as u64);
+            let coded = self.coded;
+            let base = self.pop[i].pushes_since_reset;
+            // dense rule on a sample
+            if self.caps.dense {
+                for k in (0..n).step_by(1024).chain(std::iter::once(n.saturating_sub(1))) {
+                    if k < n && T::hrepr(&hs[k]) != (base + k).to_string() {
+                        let d = format!("instance #{}: push number {} since creation/merge/clear returned index {}", self.pop[i].uid, base + k, T::hrepr(&hs[k]));
+                        return Err(self.stop(pbit(12), "dense/index-not-count", d));
+                    }
+                }
+            }
+            last_reprs.push(hs.last().map(T::hrepr).unwrap_or_default());
+            let inst = &mut self.pop[i];
+            for h in hs {
+                Self::note_stats(inst, coded, v);
+                // a collapsing region stores the first and returns its index for the rest; the
+                // stored value is the same in either case
+                inst.model.push((h, v.clone()));
+            }
+            inst.pushes_since_reset += n;
+            inst.last_push = inst.model.len().checked_sub(1);
+            if n > 0 {
+                let mi = self.pop[i].model.len() - 1;
+                self.check_handle(i, mi, Ctx::Just, false)?;
+            }
+        }
+        if cmp_idx && last_reprs.iter().any(|r| *r != last_reprs[0]) {
+            let d = format!("lockstep twins diverged after {n} pushes of {}: last indices {:?}", v.render(), last_reprs);
+            return Err(self.stop(pbit(gp), "lockstep/index-differs", d));
+        }
+        self.state_steps += 1;
+        self.event = true;
+        Ok(())
+    }
+
     fn final_checks(&mut self) -> R<()> {
         self.reread_all()?;
         self.whole_all()?;
@@ -1433,6 +1513,7 @@ impl<'c, T: Sut> Sim<'c, T> {
             }
             Op::Extend { t, vs, lo, hi } => self.op_extend(*t, vs, *lo, *hi),
             Op::FromIter { vs, lo, hi } => self.op_from_iter(vs, *lo, *hi),
+            Op::Bulk { t, v, n } => self.op_bulk(*t, v, *n),
         }
     }
 }
